@@ -73,6 +73,10 @@ func BuildClient(c ClientCfg, dial mail.DialContextFunc, logger mlog.Logger) (*m
 		opts = append(opts, mail.WithSMTPAuthCustom(smtp.PlainAuth("", c.User, c.Pass, c.host(), false)))
 	case "CUSTOM-LOGIN":
 		opts = append(opts, mail.WithSMTPAuthCustom(smtp.LoginAuth(c.User, c.Pass, c.host(), false)))
+	case "CUSTOM-SCRAM-SHA-1":
+		opts = append(opts, mail.WithSMTPAuthCustom(smtp.ScramSHA1Auth(c.User, c.Pass)))
+	case "CUSTOM-SCRAM-SHA-256":
+		opts = append(opts, mail.WithSMTPAuthCustom(smtp.ScramSHA256Auth(c.User, c.Pass)))
 	default:
 		opts = append(opts, mail.WithSMTPAuth(mail.SMTPAuthType(c.AuthType)), mail.WithUsername(c.User), mail.WithPassword(c.Pass))
 	}
